@@ -1096,6 +1096,7 @@ def generate(ctx):
     spec.loader.exec_module(mod)
     F = mod.generate()
     ctx.notes.append("flags extracted from the sources: " + ", ".join("%s=%d" % (k, F[k]) for k in mod.ORDER))
+    ctx.notes.append("source line each flag was read from: " + "; ".join("%s <- %s" % (k, mod.WHERE.get(k, "?")) for k in mod.ORDER))
     ctx.flags = F
 
 
@@ -1345,7 +1346,10 @@ ASSUMES = [
     "inconsistency, not a purity/repeatability matter",
     "a load_circuit that raises after set_coeffs (e.g. the C13/C06 routing defect, KeyError on a non-adjacent coupling) leaves a "
     "half-loaded processor; the fresh replay repeats such a load too, so only state carried ACROSS successful loads is reported",
-    "histories of at most 8 calls on 2-3 qubit circuits (the theorems are for every length and every heap)",
+    "histories of at most 8 calls on 2-3 qubit circuits (the theorems are for every length and every heap without dangling references)",
+    "repeatability is proved for every modelled operation as structural equality of the two results (history_repeatable) and clause 4 "
+    "as one disjointness theorem over histories (results_unaliased); both need the heap to be free of dangling references (world_ok) "
+    "and the operands of every call to exist (call_ok / hist_ok), which holds for every world the harness builds",
     "pulses are compared as functions of time sampled at 17 interior points plus their noise elements, not as stored arrays "
     "(get_qobjevo lengthening the coefficient arrays is not a change)",
     "a noise object's t1/t2 given as a scalar or as a constant list are the same value (RelaxationNoise normalises them in place)",
